@@ -1442,6 +1442,9 @@ func (g *Gen) VerifyFunction(fn *ssa.Function) (err error) {
 		saveLog := g.wlog
 		g.wlog = nil
 		for _, loc := range fc.Modifies {
+			if mentionsResult(loc, fc, fr.fn.Signature) {
+				continue // reached through a result: not nameable at entry; leaving it out only makes the frame stricter
+			}
 			fr.havocLoc(fenv, loc, scratch)
 		}
 		g.wlog = saveLog
